@@ -33,6 +33,8 @@ SCOPES = {"declarations", "completion", "cleanup"}
 class Observer:
     def __init__(self, ctx, run):
         self.ctx = ctx
+        self.attached_trees: set[str] = set()
+        self.by_recycle: set[tuple[str, str]] = set()
 
     def __call__(self, run, op, line, ans):
         legal = run.legal[-1]
@@ -42,10 +44,19 @@ class Observer:
             return
         sn = koracles.Snapshot(run.wf)
         self.ctx.stats.count("oracle-states-checked")
+        before = self.attached_trees
+        self.attached_trees = {n[1] for n in sn.nodes.values() if n[0] == "st" and not n[3]}
         for b in koracles.ownership_invariants(sn)[:2]:
             words = b.split(" ")
             sig = "ownership-glob-matches-product" if words[1] == "glob" else "ownership-" + "-".join(words[1:4])
-            self.ctx.finding(Finding(PID, sig[:60], f"after '{kcorr.decode_line(line)[:100]}': {b}",
+            if words[1:4] == ["file", "under", "static"]:
+                tree, path = words[5], words[-1]
+                # The tree came back with a recycled creator (it was detached before this `define`),
+                # while the path beneath it had been declared by someone else in the meantime.
+                if (op == "define" and tree not in before) or (tree, path) in self.by_recycle:
+                    self.by_recycle.add((tree, path))
+                    sig += ":tree-reattached-by-recycle"
+            self.ctx.finding(Finding(PID, sig[:80], f"after '{kcorr.decode_line(line)[:100]}': {b}",
                                      {"violation": b, "requests": [kcorr.decode_line(x) for x in run.lines][-15:],
                                       "protocol_lines": list(run.lines)}))
 
